@@ -264,10 +264,10 @@ def h_sweep_chain3(ctx, n, k):
     ctx.claim('argument_untouched', all(bool(ctx.all_eq(Y[j], Y0[j])) for j in range(d)))
 
 
-def h_sweep_stab_quasi(ctx, d, n, k):
+def h_sweep_stab_quasi(ctx, d, n, k, neg=False):
     """Stabilised complete sweep: input = 2^p * Z (see also C16)."""
     from harness.c16 import h_orth_stab_quasi
-    h_orth_stab_quasi(ctx, d, n, k)
+    h_orth_stab_quasi(ctx, d, n, k, neg)
 
 
 def h_concrete_scales(ctx):
@@ -359,6 +359,10 @@ def instances(tier):
         for k in range(d):
             out.append({'func': 'h_sweep_stab_quasi', 'params': {'d': d, 'n': n, 'k': k},
                         'opts': {'symbolic_signs': False}})
+            if k in (0, d - 1):
+                # pivot core without a positive entry
+                out.append({'func': 'h_sweep_stab_quasi', 'params': {'d': d, 'n': n, 'k': k, 'neg': True},
+                            'opts': {'symbolic_signs': False}})
     for (n1, n2, r) in [(2, 2, 2), (2, 3, 2), (3, 2, 3)]:
         for k in (0, 1):
             out.append({'func': 'h_sweep_d2', 'params': {'n1': n1, 'n2': n2, 'r': r, 'k': k}})
